@@ -2,7 +2,10 @@
 
 package atree
 
-import "fmt"
+import (
+	"fmt"
+	"sync"
+)
 
 // C04 / C16 / C02: object-pool reuse is transparent. Whatever state an object
 // is in when it goes back to one of the process-wide pools, the object handed
@@ -118,4 +121,70 @@ func VH_C16_EncoderPoolDiscipline() {
 	t2 := getTypeIDBuffer()
 	vhAssert(t1 != t2, "a pooled type-id buffer was returned twice")
 	vhReach("pool-discipline-done")
+}
+
+// Independent client goroutines, each with its own storage and containers,
+// run concurrently (modelled goroutines; the process-wide pools are
+// scheduling points with Put->Get happens-before): every interleaving gives
+// each client exactly the bytes it gets running alone, and the
+// happens-before detector sees no unsynchronised sharing through pools or
+// package-level settings.
+//
+//vh:prop C16
+//vh:init cbor
+//vh:param clients 2 2
+func VH_C16_IndependentClients() {
+	vhSetThreshold(256)
+	nclients := vhParam("clients", 2)
+	build := func(i int) []byte {
+		storage := vhNewByteStorage()
+		a, _ := NewArray(storage, vhAddr(byte(i+1)), vTypeInfo{id: 42})
+		_ = a.Append(vU64(uint64(1000 * (i + 1))))
+		_ = a.Append(vSomeValue{inner: vU64(uint64(7 + i))})
+		data, err := EncodeSlab(a.root, storage.cborEncMode)
+		if err != nil {
+			return nil
+		}
+		return data
+	}
+	// optionally, an unrelated client's encode fails first (error paths must
+	// leave the pools as they found them)
+	if vhChoose("priorfailure", 2) == 1 {
+		storage := vhNewByteStorage()
+		b := &vDigesterBuilder{levels: 4, known: map[uint64][4]uint64{}}
+		m, _ := NewMap(storage, vhAddr(9), b, vTypeInfo{id: 42})
+		k := vBKey{val: 1, d: [4]uint64{10, 1, 1, 1}}
+		b.known[1] = k.d
+		_, _ = m.Set(vhCompareBK, vhHip, k, vFailEnc{})
+		_, err := EncodeSlab(m.root, storage.cborEncMode)
+		vhAssert(err != nil, "unrelated client's failing encode is reported")
+	}
+	// what each client gets running alone
+	alone := make([][]byte, nclients)
+	for i := range alone {
+		alone[i] = build(i)
+		vhAssert(alone[i] != nil, "sequential encode")
+	}
+	got := make([][]byte, nclients)
+	var wg sync.WaitGroup
+	wg.Add(nclients)
+	for i := 0; i < nclients; i++ {
+		i := i
+		go func() {
+			defer wg.Done()
+			got[i] = build(i)
+		}()
+	}
+	wg.Wait()
+	for i := range got {
+		vhAssert(len(got[i]) == len(alone[i]), "concurrent client gets the same register length as alone")
+		if len(got[i]) == len(alone[i]) {
+			same := true
+			for k := range got[i] {
+				same = vhAll(same, got[i][k] == alone[i][k])
+			}
+			vhAssert(same, "concurrent client gets the same bytes as alone")
+		}
+	}
+	vhReach("clients-done")
 }
